@@ -569,7 +569,7 @@ def unit_ctor(sess, ctx):
                   props=("C02", "C03"))
         iv = h.get("_is_valid")
         eng.prove("C02:ctor:validator-bound", (iv is val) if vk == 0 else (getattr(iv, "name", None) == "is_valid" and getattr(iv, "obj", None) == val),
-                  props=("C02", "C07"))
+                  props=ALLTOK + ("C07",))
         return None
     res = sess.run_unit(u, eng, run_)
     # both directions must be reachable (vacuity)
@@ -907,9 +907,9 @@ def unit_tokenize(sess, ctx):
 
     def c_iter_tokens(eng, fi_, self_val, args, kwargs):
         gh = eng.st.ghost
-        eng.prove("C08:token-generator-built-once", "G" not in gh, props=("C08",))
+        eng.prove("C08:token-generator-built-once", "G" not in gh, props=ALLTOK)
         eng.prove("C08:token-generator-reads-the-given-source", len(args) == 1 and args[0] is gh["src"] and not kwargs,
-                  props=("C08",))
+                  props=ALLTOK)
         G = GenVal("abstract", name="tokens", next_fn=None)
         gh["G"] = G
         return G
@@ -918,7 +918,7 @@ def unit_tokenize(sess, ctx):
     class ForSpec:
         def run_for(self, eng, s, fr, it):
             gh = eng.st.ghost
-            eng.prove("C08:callback-loop-iterates-the-token-generator", it is gh.get("G"), props=("C08",))
+            eng.prove("C08:callback-loop-iterates-the-token-generator", it is gh.get("G"), props=ALLTOK)
             k = eng.choose(2, None, "for: iteration / exhausted")
             if k == 1:
                 return
@@ -935,25 +935,30 @@ def unit_tokenize(sess, ctx):
             except _Continue:
                 pass
             except _Break:
-                eng.prove("C08:callback-loop-does-not-stop-early", False, props=("C08",))
+                eng.prove("C08:callback-loop-does-not-stop-early", False, props=ALLTOK)
             calls = gh["cb_calls"]
             ok = len(calls) == 1 and len(calls[0][0]) == 3 and not calls[0][1] and \
                 all(x is y for x, y in zip(calls[0][0], tok))
-            eng.prove("C08:callback-called-once-with-the-token", ok, props=("C08",))
+            eng.prove("C08:callback-called-once-with-the-token", ok, props=ALLTOK)
             raise PathEnd()
     eng.loop_specs = {(fi.qualname, 0): ForSpec()}
 
     def run_(eng):
         st = eng.st
         gh = st.ghost
-        me = st.new_obj("StreamTokenizer", {})
+        # the tokenizer was used before (C20): whatever an earlier run left in its delivery fields is still there
+        old_calls = gh.setdefault("old_cb_calls", [])
+        me = st.new_obj("StreamTokenizer", {
+            "_deliver": LibCallable("callback-of-an-earlier-run", lambda e, a, k: old_calls.append(tuple(a))),
+            "_tokens": Seq("list", Int(fresh_name("old.ntokens")), lambda i: Opq(), new_aid())})
         src = st.new_obj("AnyDataSource", {})
         gh["src"] = src
         mode = eng.choose(3, None, "delivery mode")   # 0 list, 1 generator, 2 callback
         kwargs = {}
         cb = None
         if mode == 2:
-            cb = LibCallable("callback", lambda e, a, k: gh["cb_calls"].append((tuple(a), dict(k))))
+            # the callback's return value is the consumer's business: any value, truthy or not
+            cb = LibCallable("callback", lambda e, a, k: gh["cb_calls"].append((tuple(a), dict(k))) or Opq(tag="callback-result"))
             kwargs["callback"] = cb
             # generator flag is irrelevant with a callback
             if eng.choose(2, None, "generator flag with callback") == 1:
@@ -965,16 +970,16 @@ def unit_tokenize(sess, ctx):
         try:
             res = eng.run_function(fi, [src], kwargs, me)
         except PyRaise as e:
-            eng.prove("no-exception:tokenize raises %s" % e.exc, False, props=("C08",))
+            eng.prove("no-exception:tokenize raises %s" % e.exc, False, props=ALLTOK)
             raise PathEnd()
         G = gh.get("G")
         if mode == 0:
             eng.prove("C08:list-mode-returns-list-of-the-generator", isinstance(res, tuple) and res[0] == "list-of" and res[1] is G,
-                      props=("C08",))
+                      props=ALLTOK)
         elif mode == 1:
-            eng.prove("C08:generator-mode-returns-the-generator-itself", G is not None and res is G, props=("C08",))
+            eng.prove("C08:generator-mode-returns-the-generator-itself", G is not None and res is G, props=ALLTOK)
         else:
-            eng.prove("C08:callback-mode-returns-None", res is None and G is not None, props=("C08",))
+            eng.prove("C08:callback-mode-returns-None", res is None and G is not None, props=ALLTOK)
         return res
     sess.run_unit(u, eng, run_)
     return u
